@@ -72,7 +72,7 @@ Definition get_float_micro (v : option fjv) : option Z :=
 (* days since 1970-01-01 of a civil date *)
 Definition days_from_civil (y m d : Z) : Z :=
   let y := if m <=? 2 then y - 1 else y in
-  let era := (if y >=? 0 then y else y - 399) / 400 in
+  let era := y / 400 in                    (* floor division *)
   let yoe := y - era * 400 in
   let doy := (153 * (if m >? 2 then m - 3 else m + 9) + 2) / 5 + d - 1 in
   let doe := yoe * 365 + yoe / 4 - yoe / 100 + doy in
@@ -173,6 +173,11 @@ Definition parse_xsd_duration (s : bytes) : option Z :=
   end.
 
 (* ---- NotEmpty (helpers.go) on freshly loaded values ---- *)
+(* the duration clause of notEmptyObject: `o.Duration != 0`; the pinned tree tested `o.Duration > 0`, so an object
+   whose only property was a negative duration was loaded and then discarded (fix: "an object whose only
+   property is a negative duration decoded to nil") *)
+Definition notempty_dur_pinned (d : Z) : bool := 0 <? d.
+Definition notempty_dur (d : Z) : bool := negb (d =? 0).
 Definition obj_not_empty (fs : list (fid * fval)) : bool :=
   let set f := match getf f fs with Some v => negb (fval_is_zero v) | None => false end in
   let nn f := match getf f fs with                               (* `!= nil`: an empty non-nil list counts *)
@@ -181,7 +186,7 @@ Definition obj_not_empty (fs : list (fid * fval)) : bool :=
               | _ => false
               end in
   set F_ID || set F_Type || nn F_Content || nn F_Attachment || nn F_AttributedTo || nn F_Audience || nn F_BCC || nn F_Bto
-  || nn F_CC || nn F_Context || (0 <? get_dur F_Duration fs) || set F_EndTime || nn F_Generator || nn F_Icon || nn F_Image
+  || nn F_CC || nn F_Context || notempty_dur (get_dur F_Duration fs) || set F_EndTime || nn F_Generator || nn F_Icon || nn F_Image
   || nn F_InReplyTo || nn F_Likes || nn F_Location || set F_MediaType || nn F_Name || nn F_Preview || set F_Published
   || nn F_Replies || nn F_Shares
   || match getf F_Source fs with Some (FSource mt c) => negb (match mt with [] => true | _ => false end) || match c with Some _ => true | None => false end | _ => false end
